@@ -52,11 +52,21 @@ def concretise(c, i, rng):
     if c.get("switch_codec"):
         comp = ["lz4", "none"][i % 2]          # the merged store is written with the other compressor
     extra = {"merge_comp": "none" if comp == "lz4" else "lz4"} if c.get("switch_codec") else {}
+    if c.get("shape") == "codec_orders":
+        # the codec of the index changed during its life: the former-codec segments are created first, the merge takes the
+        # sources in the TLC-generated order (c["sources"]: "cur" / "old" per merge position)
+        comp = ["lz4", "none"][i % 2]
+        old = "none" if comp == "lz4" else "lz4"
+        creation = sorted(range(len(c["sources"])), key=lambda j: c["sources"][j] == "cur")     # old ones first
+        extra = {"seg_comp": [comp if c["sources"][j] == "cur" else old for j in creation], "merge_comp": comp,
+                 "merge_order": [creation.index(j) for j in range(len(c["sources"]))]}
     if c.get("filtered"):
         extra |= {"filter_ids": sorted(c["filter_ids"]), "filter_none": c["filter_none"]}
+    if "seg_comp" in extra:
+        comp = extra["seg_comp"][0]
     return extra | {"id": i, "cfg": {"blocksize": c["blocksize"], "comp": comp, "thread": i % 2 == 0, "cache": c["cache"]},
             "segs": segs, "deletes": sorted(c["deletes"]), "merge": c["merge"], "access": ACCESS[i % len(ACCESS)], "seed": rng.randrange(1 << 30),
-            "gen": {k: c[k] for k in ("k", "nb", "tail", "big", "shape", "expect_stack", "merged_blocks", "switch_codec", "filtered")} | {"blocks": [s["blocks"] for s in c["segs"]], "layers": [s["layers"] for s in c["segs"]]}}
+            "gen": {k: c.get(k) for k in ("k", "nb", "tail", "big", "shape", "expect_stack", "merged_blocks", "switch_codec", "filtered")} | {"sources": c.get("sources")} | {"blocks": [s["blocks"] for s in c["segs"]], "layers": [s["layers"] for s in c["segs"]]}}
 
 
 def random_case(i, rng, big=False):
@@ -165,8 +175,11 @@ def parse_layout_prints(ctx, out, cases, units):
     blocks = re.findall(r'<<"BLOCKS", (\d+), (\d+), (\d+), "(\w+)", "([\w-]+)">>', out)
     merged = {int(c): (int(o), int(r)) for c, o, r in re.findall(r'<<"MERGED", (\d+), (-?\d+), (\d+)>>', out)}
     per_case = {}
+    mixed_codecs = {c["id"] for c in cases if "seg_comp" in c}      # (the judge only knows the first segment's compressor)
     for cid, b, ly, comp, verdict in blocks:
         per_case.setdefault(int(cid), []).append((int(b), int(ly)))
+        if int(cid) in mixed_codecs:
+            verdict = "-"
         cov["blocks_per_segment"][b] = cov["blocks_per_segment"].get(b, 0) + 1
         cov["layers"][ly] = cov["layers"].get(ly, 0) + 1
         if verdict == "layout-as-predicted":
@@ -209,14 +222,16 @@ def replay_layouts(ctx):
     # every number of blocks and every shape at least once, then the seeded sample
     chosen, seen = [], set()
     for c in cases:
-        key = (c["nb"], c["shape"])
+        key = (c["nb"], c["shape"], tuple(c.get("sources") or ()))
+        if c["shape"] == "codec_orders" and (c["nb"] < 6 or c["big"] != "none" or (ctx.quick and (c["nb"] not in (6, 8) or c["k"] != 2))):
+            continue        # sources of fewer than 6 blocks are never stacked
         if key not in seen and (ctx.quick is False or c["k"] * c["nb"] <= 130 or c["nb"] >= 63 and c["k"] == 1):
             seen.add(key)
             chosen.append(c)
     for c in cases:
         if len(chosen) >= n:
             break
-        if c not in chosen and (not ctx.quick or c["k"] * c["nb"] <= 80):
+        if c not in chosen and c["shape"] != "codec_orders" and (not ctx.quick or c["k"] * c["nb"] <= 80):
             chosen.append(c)
     conc = [concretise(c, i, rng) for i, c in enumerate(chosen)]
     outs = []
